@@ -12,7 +12,7 @@ func init() {
 		technique: "conservation rules on the CFG (a job leaves one container only into another), field write tables with value shapes, guard dominance (edge facts), who-may-call confinement over the work-pulling producer controller",
 		explanation: "Decides job conservation inside the work-pulling controller: a job lives in exactly one of {pending pool, a binding's unconfirmed list} until it is confirmed, and every move keeps it: (1) pending shrinks only in dispatchPending, where the removed head is appended to the chosen binding's unconfirmed list and emitted on every non-terminal path; pending grows only by acceptance (guarded by !owns, so a resubmitted job is not duplicated), by reload, and by requeue; (2) a binding is removed from the table only in endBinding, which first returns all of its unconfirmed jobs to the head of the pending pool with their MessageID, store sequence and payload; a replaced binding is ended before the new one is installed; every caller of endBinding runs progress() afterwards so requeued jobs are dispatched to the remaining workers; a worker's termination ends its binding; (3) entries leave an unconfirmed list only in advanceConfirmed as the prefix with workerSeq ≤ the confirmation, which is applied only for an authenticated binding after the range check; the producer-side confirmation notice is sent for exactly that prefix, once; a (re)registering worker is told to resume after its last CONFIRMED sequence (confirmedSeq+1); (4) worker sequences are assigned contiguously (currentSeq++ at dispatch) and emission is demand-checked (C43). That some worker eventually confirms (liveness) and exactly-once under all join/leave/fault histories are NOT decided.",
 		assumptions: []string{"actor turn atomicity", "liveness of workers and timers", "durable queue contract (reload returns every unconfirmed job)"},
-		minObl:     30,
+		minObl:     39,
 		run:        runC44,
 	})
 }
